@@ -122,14 +122,14 @@ impl Masker for TreeSitterMasker {
 fn byte_spans_to_char_spans(byte_spans: &mut Vec<Span>, source: &str) {
     byte_spans.sort_by_key(|s| s.start);
 
-    let cloned = byte_spans.clone();
-
-    let mut i: usize = 0;
+    // Compare against the last span that was kept, not merely the previous one: a comment that
+    // contains two nested comments would otherwise keep the second of them.
+    let mut last_end: usize = 0;
     byte_spans.retain(|cur| {
-        i += 1;
-        if let Some(prev) = cloned.get(i.wrapping_sub(2)) {
-            !cur.overlaps_with(*prev)
+        if cur.start < last_end {
+            false
         } else {
+            last_end = cur.end;
             true
         }
     });
